@@ -44,8 +44,13 @@ private:
 		template <typename ...Args>
 		auto operator() (Args && ...args) const
 			-> typename std::enable_if<internal_::CanInvoke<Callback, Args ...>::value, void>::type {
-			if(--data->triggerCount <= 0) {
+			// Don't decrement a count that is already at or below 1: the result would not be
+			// used, and decrementing the minimum int is undefined behaviour (signed overflow).
+			if(data->triggerCount <= 1) {
 				data->dispatcher.removeListener(data->event, data->handle);
+			}
+			else {
+				--data->triggerCount;
 			}
 			data->listener(std::forward<Args>(args)...);
 		}
@@ -127,8 +132,12 @@ private:
 		template <typename ...Args>
 		auto operator() (Args && ...args) const
 			-> typename std::enable_if<internal_::CanInvoke<Callback, Args ...>::value, void>::type {
-			if(--data->triggerCount <= 0) {
+			// See the comment in the other specialization.
+			if(data->triggerCount <= 1) {
 				data->callbackList.remove(data->handle);
+			}
+			else {
+				--data->triggerCount;
 			}
 			data->listener(std::forward<Args>(args)...);
 		}
